@@ -3,7 +3,8 @@
 Enumerated, bound by bound (bound = number of nodes n; quick n<=4, thorough n<=5 + three fixed ~30-node shapes):
   api   every DAG on n nodes (every edge set over the fixed topological order 0<1<..<n-1) x node kind {Exec, Comm, Io}^n x
         assignment order {B: assigned before start(), A: after start() at the same date, L: one time unit after its last
-        predecessor finished}^n, built through the S4U API (n=5: kinds^5 with a common order + orders^5 with a common kind)
+        predecessor finished}^n, built through the S4U API (full product for n<=3, and for n=4 in thorough; n=4 quick:
+        kinds^4 with a common order + orders^4 with a common kind; n=5: 18 uniform / rotated kind and order patterns)
   json  every DAG of n computations x every subset of edges carrying a transfer, written as a wfcommons JSON file and loaded
         with create_DAG_from_json; variants M (machines in the file), A (no machine, everything assigned after loading), L (as
         A but every computation assigned one time unit after its last predecessor finished)
@@ -238,16 +239,26 @@ def dax_spec(n, edges, variant, d, cid, durs=None):
 
 # ------------------------------------------------------------------------------------------------ enumeration
 def kind_order_patterns(n, full):
+    """full: kinds^n x orders^n. Else a family that still shows every kind and every order at every position:
+    n<=4: kinds^n x common order + orders^n x common kind; n>=5: uniform and rotated patterns (18)."""
     if full:
         return [("".join(k), "".join(m)) for k in itertools.product("ECI", repeat=n) for m in itertools.product("BAL", repeat=n)]
-    out, seen = [], set()
-    for k in itertools.product("ECI", repeat=n):
-        for m in "BAL":
-            out.append(("".join(k), m * n))
-    for m in itertools.product("BAL", repeat=n):
+    out = []
+    if n <= 4:
+        for k in itertools.product("ECI", repeat=n):
+            for m in "BAL":
+                out.append(("".join(k), m * n))
+        for m in itertools.product("BAL", repeat=n):
+            for k in "ECI":
+                out.append((k * n, "".join(m)))
+    else:
         for k in "ECI":
-            out.append((k * n, "".join(m)))
-    res = []
+            for m in "BAL":
+                out.append((k * n, m * n))
+        for r in range(3):
+            for q in range(3):
+                out.append(("".join("ECI"[(i + r) % 3] for i in range(n)), "".join("BAL"[(i + q) % 3] for i in range(n))))
+    res, seen = [], set()
     for p in out:
         if p not in seen:
             seen.add(p)
@@ -256,10 +267,10 @@ def kind_order_patterns(n, full):
 
 
 def shard_specs(job, d):
-    """job = (tier, n, mask) -> list of Spec"""
-    tier, n, mask = job
+    """job = (tier, n, mask, full) -> list of Spec"""
+    tier, n, mask, full = job
     if tier == "api":
-        return [api_spec(n, mask, k, m) for k, m in kind_order_patterns(n, n <= 4)]
+        return [api_spec(n, mask, k, m) for k, m in kind_order_patterns(n, full)]
     ne = bin(mask).count("1")
     out = []
     for tmask in range(1 << ne):
@@ -393,7 +404,7 @@ def build():
 def _job(job):
     d, exe = _G["d"], _G["exe"]
     specs = shard_specs(job, d) if job[0] != "big" else big_shapes(d)
-    outs, crashed = execute(exe, specs, d, "%s%d_%d" % job)
+    outs, crashed = execute(exe, specs, d, "%s%d_%d" % tuple(job[:3]))
     res = {"n": len(specs), "nontrivial": 0, "dup": 0, "fails": {}, "sample": None, "by_tier": {}}
     for s in specs:
         res["by_tier"][s.tier] = res["by_tier"].get(s.tier, 0) + 1
@@ -428,31 +439,47 @@ def run_one(exe, d, job, cid):
     return s, outs.get(cid), check(s, outs.get(cid))[0]
 
 
-def jobs_for(n):
+def jobs_for(n, full):
     ne = n * (n - 1) // 2
-    return [(t, n, m) for t in ("api", "json", "dax") for m in range(1 << ne)]
+    return [(t, n, m, full) for t in ("api", "json", "dax") for m in range(1 << ne)]
+
+
+def count_cases(jobs):
+    c = 0
+    for t, n, m, full in jobs:
+        if t == "big":
+            c += 24
+        elif t == "api":
+            c += len(kind_order_patterns(n, full))
+        else:
+            c += (3 if t == "json" else 2) << bin(m).count("1")
+    return c
 
 
 def run(ctx):
     exe = build()
+    # compiling the executor (it includes the loaders and nlohmann/json) can take a minute on a loaded machine: the
+    # exploration budget starts after it
+    dl = common.Deadline(max(ctx.deadline.left(), 0.8 * (ctx.deadline.end - ctx.deadline.t0)))
     d = common.tmpdir("c13")
     _G["d"], _G["exe"] = d, exe
     N = 4 if ctx.quick else 5
     tot = {"n": 0, "nontrivial": 0, "dup": 0, "fails": {}, "samples": [], "by_tier": {}, "by_bound": {}}
-    done, times, last = 0, {}, 0.0
+    done, times, rate = 0, {}, 0.0005
+    # stages: a bound (number of nodes) is completed for the three paths or not started
+    stages = [("3", [j for n in (1, 2, 3) for j in jobs_for(n, True)]), ("4", jobs_for(4, not ctx.quick))]
+    if not ctx.quick:
+        stages += [("big", [("big", 0, 0, True)]), ("5", jobs_for(5, False))]
     try:
-        bounds = list(range(1, N + 1)) + ([] if ctx.quick else ["big"])
-        for b in bounds:
-            est = 15 if b == "big" else max(10.0, last * (40 if b <= 4 else 8))
-            if ctx.deadline.left() < est:
+        for b, jobs in stages:
+            ncases = count_cases(jobs)
+            if dl.left() < 5 + ncases * rate * (4 if b == "5" else 1):     # n=5 cases cost ~4x an n=4 case (measured)
                 break
             t0 = time.time()
-            jobs = [("big", 0, 0)] if b == "big" else jobs_for(b)
             if ctx.seed:
                 import random
                 random.Random(ctx.seed).shuffle(jobs)
-            # big shards first, so that the pool stays busy
-            parts = common.pmap(_job, jobs, chunksize=1 if (b == "big" or b >= 4) else 4)
+            parts = common.pmap(_job, jobs, chunksize=1 if len(jobs) < 256 else 4)
             nb = 0
             for r in parts:
                 tot["n"] += r["n"]
@@ -466,10 +493,13 @@ def run(ctx):
                         tot["fails"][k] = v
                     else:
                         tot["fails"][k][0] += v[0]
+            assert nb == ncases, (nb, ncases)
             tot["samples"] += [parts[0]["sample"], parts[-1]["sample"]]
-            tot["by_bound"][str(b)] = nb
+            tot["by_bound"]["n<=3" if b == "3" else b] = nb
             last = time.time() - t0
-            times[str(b)] = round(last, 2)
+            times["n<=3" if b == "3" else b] = round(last, 2)
+            if nb >= 20000:
+                rate = last / nb
             done = b
         violations = []
         for (tier, cls), (cnt, cid, detail, desc, job) in sorted(tot["fails"].items()):
@@ -479,19 +509,20 @@ def run(ctx):
                 common.log("C13: failure %s/%s on %s does not reproduce alone (%s / %s): harness bug" % (tier, cls, cid, a, b_))
                 raise SystemExit(2)
             key = "C13 %s %s case=%s" % (tier, cls, cid)
-            violations.append(common.Violation(key, "%s [%s; %d cases of this tier fail this way, this is the first]" % (detail, json.dumps(desc), cnt),
+            violations.append(common.Violation(key, "%s [%s; %d failures of this class in this tier, this is the first case]" % (detail, json.dumps(desc), cnt),
                                                {"job": list(job), "id": cid, "desc": desc}))
     finally:
         shutil.rmtree(d, ignore_errors=True)
     if tot["nontrivial"] < 2:
         common.log("C13: vacuous run")
         raise SystemExit(2)
-    full = done == bounds[-1]
+    full = done == stages[-1][0]
+    order = [b for b, _ in stages]
     cov = {"evaluations": tot["n"], "distinct_nontrivial": tot["nontrivial"],
            "rule": "one evaluation = one workflow built and run to completion, all distinct (DAG x kinds x assignment orders, or DAG x "
                    "transfer subset x variant); non-trivial = some node has >=2 predecessors finishing at different dates, or is assigned "
                    "strictly after its last predecessor finished (its start is decided by a real max)",
-           "samples": tot["samples"][:6], "exhaustive": full, "bound_completed": done, "bound_target": bounds[-1],
+           "samples": tot["samples"][:6], "exhaustive": full, "bound_completed": done, "bound_target": stages[-1][0],
            "cases_by_tier": tot["by_tier"], "cases_by_bound": tot["by_bound"], "seconds_by_bound": times,
            "duplicate_on_start_signals_ignored": tot["dup"]}
     common.finish(ctx, "exploration", cov,
@@ -499,7 +530,8 @@ def run(ctx):
                    "several workflows run one after the other in one simulation (dates relative to the beginning of the case); "
                    "the loaders are compiled from /repo/src/dag/loaders.cpp into the executor, which clears the DAX loader's static tables "
                    "after each DAX case; every failure is re-run alone twice in a new process",
-                   "n=5 API tier: kinds^5 x common order and orders^5 x common kind, not the full product (60M cases)",
+                   "API tier: n=4 in quick = kinds^4 x common order + orders^4 x common kind; n=5 = 18 uniform/rotated patterns per DAG (the full product is 60M cases); "
+                   "every (kind, order) of a predecessor x (kind, order) of a successor already occurs in the full products of n<=3 (and n=4 in thorough)",
                    "Comm fires on_start twice for host-to-host comms (S4U and kernel level): the first one is used, duplicates are counted",
                    "DOT loader not covered (SimGrid built without graphviz); failures of resources are C10's subject"],
                   violations, engine="misc/c13x")
